@@ -11,6 +11,10 @@ Next == /\ Len(hist) < MaxSteps
                  \/ "Rescale" \in Ops /\ \E a, o \in Regs : Rescale(a, o, <<>>)
                  \/ "Relin" \in Ops /\ \E a, o \in Regs : Relin(a, o)
                  \/ "MulSc" \in Ops /\ \E a, o \in Regs, kind \in ScKinds : MulSc(a, kind, o, <<>>)
+                 \/ "AddSc" \in Ops /\ \E a, o \in Regs, kind \in ScKinds : AddSc(a, kind, o, <<>>)
+                 \/ "MulPt" \in Ops /\ \E a, o \in Regs, kind \in {"one", "rand"} : MulPt(a, kind, o, <<>>, <<>>)
+                 \/ "AddPt" \in Ops /\ \E a, o \in Regs, kind \in {"same", "rand"} : AddPt(a, kind, o, <<>>, <<>>)
+                 \/ "MulRelinThenAdd" \in Ops /\ \E a, b, o \in Regs : MulRelinThenAdd(a, b, o, <<>>, <<>>)
 Spec == Init /\ [][Next]_vars
 \* emitted: programs of full length
 Emit == (Len(hist) < MaxSteps) \/ PrintT(<<"PROG", ToJson(hist)>>)
